@@ -64,10 +64,33 @@ class _G:
         return self.draw(st.sampled_from(OPS))
 
 
+def _relayout(draw, line):
+    """insert newlines (+ indentation, sometimes a trailing comment) at random token boundaries inside brackets"""
+    import io
+    import tokenize
+
+    toks = list(tokenize.generate_tokens(io.StringIO(line + "\n").readline))
+    out, depth, prev_end = [], 0, (1, 0)
+    for t in toks:
+        if t.type in (tokenize.NEWLINE, tokenize.NL, tokenize.ENDMARKER):
+            continue
+        gap = " " * (t.start[1] - prev_end[1]) if t.start[0] == prev_end[0] else ""
+        if depth > 0 and out and draw(st.integers(0, 5)) == 0:
+            c = draw(st.sampled_from(["", "", "  # lambda z: (z", "  # )"]))
+            gap = c + "\n" + " " * draw(st.integers(0, 8))
+        out.append(gap + t.string)
+        if t.type == tokenize.OP and t.string in "([{":
+            depth += 1
+        elif t.type == tokenize.OP and t.string in ")]}":
+            depth -= 1
+        prev_end = t.end
+    return "".join(out)
+
+
 @st.composite
 def _unit(draw):
     g = _G(draw)
-    pick = draw(st.integers(0, 41))
+    pick = draw(st.integers(0, 47))
     sup = True
     pre = ""
     label = ""
@@ -280,6 +303,16 @@ def _unit(draw):
         body = f"q = ds.{o1}(lambda {a}: {inner}).{o2}({g.lam(o2, a2)[0]})"
         sup = False
         label = "continuation-line-starts-with-nested-lambda"
+    elif pick >= 42:
+        # free-form layout: a chain of 2-3 calls, then line breaks (and comments) at random places where python allows them
+        ncalls = draw(st.integers(2, 3))
+        chain = "ds"
+        for _ in range(ncalls):
+            o = g.op()
+            chain += f".{o}({g.lam(o, draw(st.sampled_from(ARGS[:3])))[0]})"
+        body = _relayout(draw, f"q = ({chain})")
+        sup = False
+        label = "random-line-breaks-inside-brackets"
     elif pick in (40, 41):
         o1 = g.op()
         o2 = o1 if pick == 40 else draw(st.sampled_from([o for o in OPS if o != o1]))
